@@ -187,13 +187,44 @@ func decodeStreamTextUnmarshaler(s *Stream, depth int64, unmarshaler encoding.Te
 		return nil
 	}
 
+	if err := textUnmarshalerTypeError(src, unmarshaler, s.totalOffset()); err != nil {
+		return err
+	}
 	dst := make([]byte, len(src))
 	copy(dst, src)
-
+	dst, ok := unquoteBytes(dst)
+	if !ok {
+		return errors.ErrSyntax("invalid string literal for UnmarshalText", s.totalOffset())
+	}
 	if err := unmarshaler.UnmarshalText(dst); err != nil {
 		return err
 	}
 	return nil
+}
+
+// textUnmarshalerTypeError: only a string literal has text for UnmarshalText
+func textUnmarshalerTypeError(src []byte, unmarshaler encoding.TextUnmarshaler, offset int64) error {
+	if len(src) == 0 {
+		return nil
+	}
+	var value string
+	switch src[0] {
+	case '[':
+		value = "array"
+	case '{':
+		value = "object"
+	case '-', '0', '1', '2', '3', '4', '5', '6', '7', '8', '9':
+		value = "number"
+	case 't', 'f':
+		value = "bool"
+	default:
+		return nil
+	}
+	return &errors.UnmarshalTypeError{
+		Value:  value,
+		Type:   reflect.TypeOf(unmarshaler),
+		Offset: offset,
+	}
 }
 
 func decodeTextUnmarshaler(buf []byte, cursor, depth int64, unmarshaler encoding.TextUnmarshaler, p unsafe.Pointer) (int64, error) {
@@ -208,10 +239,14 @@ func decodeTextUnmarshaler(buf []byte, cursor, depth int64, unmarshaler encoding
 		*(*unsafe.Pointer)(p) = nil
 		return end, nil
 	}
-	if s, ok := unquoteBytes(src); ok {
-		src = s
+	if err := textUnmarshalerTypeError(src, unmarshaler, start); err != nil {
+		return 0, err
 	}
-	if err := unmarshaler.UnmarshalText(src); err != nil {
+	s, ok := unquoteBytes(src)
+	if !ok {
+		return 0, errors.ErrSyntax("invalid string literal for UnmarshalText", start)
+	}
+	if err := unmarshaler.UnmarshalText(s); err != nil {
 		return 0, err
 	}
 	return end, nil
